@@ -71,7 +71,9 @@ def _run_scenario(sc, fault, env, res):
     env.set_winsize(40, 20)
     kind = sc["kind"]
     indef = sc.get("indef_len") is not None
-    subj = S.Subj(FrameCount.INDEFINITE if indef else sc["n"], 1, sc["size"], "text", indef_len=sc.get("indef_len"))
+    # (some subjects are of a render class further down the hierarchy, with data and a
+    # finalizer hook at two levels)
+    subj = (S.SubjDeep if sc.get("deep") else S.Subj)(FrameCount.INDEFINITE if indef else sc["n"], 1, sc["size"], "text", indef_len=sc.get("indef_len"))
     if fault and fault[0] == "too-small":
         env.set_winsize(max(1, sc["size"][0] - 1), max(1, sc["size"][1] - 1))
     elif fault and fault[0] == "size":
@@ -316,6 +318,11 @@ def _run_scenario(sc, fault, env, res):
         res.count("render-data tokens audited")
         if c != 1:
             errs.append("render data #%d finalized %d times (outcome %s)" % (S.created.index(t), c, outcome))
+    if sc.get("deep"):
+        for t in S.created:
+            c = S.SubjDeep.deep_finalized.count(t)
+            if c != 1:
+                errs.append("render data #%d: the finalizer hook of its (sub)class ran %d times (outcome %s)" % (S.created.index(t), c, outcome))
     if S.used_after_finalize:
         errs.append("a frame was rendered with already-finalized render data")
     if not S.created and not (fault and fault[0] in ("size", "bad-args")):
@@ -341,6 +348,8 @@ def gen_scenario(rnd):
         sc["size2"] = [rnd.randint(1, 4), rnd.randint(1, 3)]
     if rnd.random() < 0.25:
         sc["in_handler"] = True
+    if rnd.random() < 0.3:
+        sc["deep"] = True
     if kind == "from_data_reuse":
         sc["reuse_owns"] = rnd.random() < 0.5
     if kind == "two_iters":
